@@ -105,6 +105,8 @@ def impure_writes(func: ast.FunctionDef, params: set[str] | None = None, *, trac
                 return FRESH
             return FRESH
         if isinstance(e, ast.IfExp):
+            if isinstance(e.test, ast.Constant):
+                return ev(e.body if e.test.value else e.orelse, env)
             return ev(e.body, env) | ev(e.orelse, env)
         if isinstance(e, ast.NamedExpr):
             return ev(e.value, env)
